@@ -26,7 +26,7 @@ CLAIM = {
     "technique": "Coq proof over source-regenerated integer functions and constants + depth-counting model + child-process fuzzing of all entry points",
 }
 
-AST_RECURSIVE = ("ast-preorder", "ast-loads")
+AST_RECURSIVE = ("ast-preorder", "ast-loads")   # (historic: both are depth-limited since 62dcdd9)
 
 
 # ------------------------------------------------------------------ bounds tie
